@@ -33,8 +33,37 @@ def run_check(prop, repo):
     return p.returncode, p.stdout + p.stderr
 
 
+def one_job(prop, name, m):
+    """returns (report text, 1 if mismatch else 0)"""
+    d = scratch()
+    try:
+        repo = d + "/repo"
+        if "patch" in m:
+            r = subprocess.run(["git", "-C", repo, "apply", m["patch"]], capture_output=True, text=True)
+            if r.returncode:
+                return "%-5s %-45s PATCH-DOES-NOT-APPLY %s" % (prop, name, r.stderr.strip()[:100]), 1
+        else:
+            path = os.path.join(repo, m["file"])
+            text = open(path).read()
+            if text.count(m["find"]) != 1:
+                return "%-5s %-45s ANCHOR-NOT-UNIQUE (%d)" % (prop, name, text.count(m["find"])), 1
+            open(path, "w").write(text.replace(m["find"], m["replace"]))
+        rc, out = run_check(prop, repo)
+        got = "violation" if rc == 1 and "VIOLATION property=%s" % prop in out else ("pass" if rc == 0 else "rc=%d" % rc)
+        ok = got == m["expect"]
+        viol = [l for l in out.splitlines() if l.startswith("failed obligation")]
+        line = "%-5s %-45s expect=%-9s got=%-9s %s  %s" % (prop, name, m["expect"], got, "OK" if ok else "MISMATCH", "; ".join(v[19:] for v in viol[:4]))
+        if not ok:
+            line += "\n      " + "\n      ".join(out.splitlines()[-8:])
+        return line, 0 if ok else 1
+    finally:
+        cleanup(d)
+
+
 def main():
-    args = sys.argv[1:]
+    args = [a for a in sys.argv[1:]]
+    if "-j" in args:
+        i = args.index("-j"); del args[i:i + 2]
     only = None
     if "-k" in args:
         i = args.index("-k"); only = args[i + 1]; del args[i:i + 2]
@@ -52,6 +81,20 @@ def main():
         if props and prop not in props:
             continue
         jobs.append((prop, "seeded/" + os.path.basename(d), {"patch": os.path.join(d, "patch.diff"), "expect": "violation"}))
+    nj = 1
+    if "-j" in sys.argv:
+        nj = int(sys.argv[sys.argv.index("-j") + 1])
+    todo = [j for j in jobs if not only or only in j[1]]
+    if nj > 1:
+        from concurrent.futures import ThreadPoolExecutor
+        with ThreadPoolExecutor(max_workers=nj) as ex:
+            results = list(ex.map(lambda j: one_job(*j), todo))
+        bad = 0
+        for line, b in results:
+            print(line)
+            bad += b
+        print("selftest: %d jobs, %d mismatches" % (len(todo), bad))
+        return 1 if bad else 0
     bad = 0
     for prop, name, m in jobs:
         if only and only not in name:
